@@ -738,7 +738,7 @@ class PatternV:
         self.pattern = pattern
 
 
-BUILTINS = {"id", "setattr", "hasattr", "getattr", "callable", "round", "abs", "super", "map", "filter", "str", "int", "len", "isinstance", "bool", "list", "tuple", "enumerate", "zip", "all", "any", "float", "repr", "type", "dict", "set", "range", "sorted", "min", "max"}
+BUILTINS = {"print", "input", "id", "setattr", "hasattr", "getattr", "callable", "round", "abs", "super", "map", "filter", "str", "int", "len", "isinstance", "bool", "list", "tuple", "enumerate", "zip", "all", "any", "float", "repr", "type", "dict", "set", "range", "sorted", "min", "max"}
 
 
 def decorators(fn):
@@ -754,6 +754,8 @@ class Ev:
         self.stubs = {}  # "Class.method" -> callable(bound arguments) giving the abstract result
         self.syms = {}  # name -> Sym, for atoms used as dictionary keys
         self.ids = {}  # python id -> IdV, for id(x) used as dictionary keys
+        self.input_reply = None  # what input() answers (Str), when the evaluated code may ask the user
+        self.model_calls = {}  # dotted name of an outside callable -> python function(args, kwargs) modelling it
         self.assume_valid = True  # argument validators (commonroad.common.validity.is_*) hold for the symbolic inputs
         self.instantiate = set()  # class names whose constructor is evaluated (an Obj is built) instead of recorded
         self.oracle = None  # callable(kind, a, b) -> True / False / None: decides tests on atoms for the shape case
@@ -826,6 +828,10 @@ class Ev:
                 r = a is b
             elif isinstance(a, bool) or isinstance(b, bool):
                 r = isinstance(a, bool) and isinstance(b, bool) and a == b
+            elif isinstance(a, EnumMember) and isinstance(b, EnumMember):
+                r = same(a, b)  # enum members are singletons
+            elif isinstance(a, ClassRef) and isinstance(b, ClassRef):
+                r = a.cls is b.cls
             else:
                 r = a is b
             return r if isinstance(op, ast.Is) else not r
@@ -1653,6 +1659,13 @@ class Ev:
             if isinstance(args[0], NoneT):
                 return Builtin("NoneType")
             raise AnalysisError("type(%r) at line %d" % (args[0], e.lineno))
+        if name == "print":
+            return NONE
+        if name == "input":
+            if self.input_reply is None:
+                raise AnalysisError("input() at line %d: no reply modelled" % e.lineno)
+            self.trace.append(("input", e, args[0] if args else NONE))
+            return self.input_reply
         if name == "id" and len(args) == 1:
             return IdV(args[0])
         if name == "__new__" and len(args) == 1 and isinstance(args[0], ClassRef):
@@ -1783,6 +1796,8 @@ class Ev:
     def modcall(self, name, args, kwargs, e):
         if name.startswith("warnings.") or name.startswith("logging.") or name.startswith("logger."):
             return NONE
+        if name in self.model_calls:
+            return self.model_calls[name](args, kwargs)
         last = name.split(".")[-1]
         if last == "Element" and args:
             el = ElemV(args[0], args[1].d if len(args) > 1 and isinstance(args[1], DictV) else None)
